@@ -100,8 +100,14 @@ func watchRunCases(col *Collector, tier string, rng *rand.Rand) {
 	if tier == "thorough" {
 		n = 6
 	}
-	results := make([]Case, n)
-	parallel(n, 4, func(i int) { results[i] = watchRunCase(rand.New(rand.NewSource(rng.Int63() + int64(i)))) })
+	results := make([]Case, n+1)
+	parallel(n+1, 4, func(i int) {
+		if i == n {
+			results[i] = watchTwoCase()
+			return
+		}
+		results[i] = watchRunCase(rand.New(rand.NewSource(rng.Int63() + int64(i))))
+	})
 	for _, c := range results {
 		col.Add(c)
 	}
@@ -205,6 +211,85 @@ watchers:
 			sig = "c20-stops-serving"
 		}
 		cs.Fail, cs.Sig = fmt.Sprintf("task runs %v, the operations on observed paths were %v", got, want), sig
+	}
+	return cs
+}
+
+// two watchers named on one command line: each observes its own paths and runs its own task
+func watchTwoCase() Case {
+	root := newScratchDir("c20w2")
+	defer os.RemoveAll(root)
+	for _, d := range []string{"one", "two"} {
+		os.MkdirAll(filepath.Join(root, d), 0755)
+		os.WriteFile(filepath.Join(root, d, "f.txt"), []byte("x"), 0644)
+	}
+	trace := filepath.Join(root, "trace")
+	cfg := fmt.Sprintf(`
+tasks:
+  t1:
+    command:
+      - 'echo "RAN one $EventName $EventPath" >> %s'
+  t2:
+    command:
+      - 'echo "RAN two $EventName $EventPath" >> %s'
+watchers:
+  w1:
+    watch: ["%s/one/*.txt"]
+    events: [write]
+    task: t1
+  w2:
+    watch: ["%s/two/*.txt"]
+    events: [write]
+    task: t2
+`, trace, trace, root, root)
+	os.WriteFile(filepath.Join(root, "tasks.yaml"), []byte(cfg), 0644)
+	cs := Case{Tags: []string{"inotify", "two-watchers"}, NonTrivial: true}
+	cmd := exec.Command(taskctlBin(), "-c", filepath.Join(root, "tasks.yaml"), "watch", "w1", "w2")
+	cmd.Dir = root
+	cmd.Env = []string{"PATH=" + os.Getenv("PATH"), "HOME=" + root}
+	cmd.SysProcAttr = &syscall.SysProcAttr{Setpgid: true}
+	var stderr strings.Builder
+	cmd.Stderr = &stderr
+	if err := cmd.Start(); err != nil {
+		cs.Fail, cs.Sig = err.Error(), "c20-watch-start"
+		return cs
+	}
+	defer func() {
+		syscall.Kill(-cmd.Process.Pid, syscall.SIGKILL)
+		cmd.Wait()
+	}()
+	// both watchers run their task once at start-up
+	deadline := time.Now().Add(6 * time.Second)
+	for len(readTrace(trace)) < 2 && time.Now().Before(deadline) {
+		time.Sleep(50 * time.Millisecond)
+	}
+	time.Sleep(1200 * time.Millisecond)
+	base := len(readTrace(trace))
+	var want, replay []string
+	for _, d := range []string{"one", "two", "one", "two"} {
+		p := filepath.Join(root, d, "f.txt")
+		f, _ := os.OpenFile(p, os.O_APPEND|os.O_WRONLY, 0644)
+		f.WriteString("more")
+		f.Close()
+		replay = append(replay, "write:"+d+"/f.txt")
+		want = append(want, fmt.Sprintf("RAN %s write %s", d, p))
+		time.Sleep(2500 * time.Millisecond)
+	}
+	got := readTrace(trace)
+	if len(got) >= base {
+		got = got[base:]
+	}
+	cs.Replay = "taskctl watch w1 w2 (w1: one/*.txt -> t1, w2: two/*.txt -> t2); operations: " + strings.Join(replay, ", ")
+	cs.Impl = strings.Join(got, " | ")
+	gs := append([]string{}, got...)
+	ws := append([]string{}, want...)
+	sort.Strings(gs)
+	sort.Strings(ws)
+	switch {
+	case strings.Contains(stderr.String(), "panic:"):
+		cs.Fail, cs.Sig = "watcher crashed: "+firstPanicLine(stderr.String()), "c20-panic"
+	case strings.Join(gs, "|") != strings.Join(ws, "|"):
+		cs.Fail, cs.Sig = fmt.Sprintf("task runs %v, the operations on the two watchers' paths were %v", got, want), "c20-two-watchers"
 	}
 	return cs
 }
